@@ -115,7 +115,12 @@ Definition told_ok_after_commit (evs : list event) : Prop :=
     In (EMutations s p ms) pre ->
     (exists r c ks, In (ECmReply r s c ks CmOk) pre /\ In p ks) \/
     (exists r ks m o, In (EPwReply r s ks (PwOk m o)) pre /\ o <> 0) \/
-    (exists r' p' ks' o m f secs, In (EPwSend r' s p' ks' true o m f secs) pre).
+    (* async commit in force: every prewrite request asked for it, no answer declined it (min-commit 0),
+       every locked mutation has a successful answer *)
+    ((exists r' p' ks' o m f secs, In (EPwSend r' s p' ks' true o m f secs) pre) /\
+     (forall r' p' ks' a o m f secs, In (EPwSend r' s p' ks' a o m f secs) pre -> a = true) /\
+     (forall r' ks' o, ~ In (EPwReply r' s ks' (PwOk 0 o)) pre) /\
+     (forall k, In k (lock_keys_of ms) -> exists r' ks' m o, In (EPwReply r' s ks' (PwOk m o)) pre /\ In k ks')).
 
 (* 8 (C03) *)
 Definition undetermined_only_if (evs : list event) : Prop :=
